@@ -64,23 +64,52 @@ func randSigner(r *hx.Rand, g *hx.Gen) string {
 	return fmt.Sprintf("%d~%s~%s", id, k.Type, kind)
 }
 
+func randSigners(r *hx.Rand, g *hx.Gen) string {
+	ns := r.PickInt(0, 1, 1, 2, 2, 3, 4)
+	ss := make([]string, ns)
+	for j := range ss {
+		ss[j] = randSigner(r, g)
+	}
+	return strings.Join(ss, "+")
+}
+
+// randMethod: pw / kbd / pk / pkcb (PublicKeysCallback with 1..3 answers), sometimes wrapped in
+// RetryableAuthMethod (maxTries <= 0 only around password and keyboard-interactive, which always read a packet)
+func randMethod(r *hx.Rand, g *hx.Gen) string {
+	var m string
+	reads := true
+	switch r.Intn(6) {
+	case 0:
+		m = "pw:" + r.PickStr("secret", "x")
+	case 1:
+		m = "kbd:" + r.PickStr("a", "a", "a", "w", "f")
+	case 2:
+		n := r.Range(1, 3)
+		ls := make([]string, n)
+		for i := range ls {
+			ls[i] = randSigners(r, g)
+		}
+		m, reads = "pkcb:"+strings.Join(ls, "|"), false
+		g.Stat("method.pkcb")
+	default:
+		m, reads = "pk:"+randSigners(r, g), false
+	}
+	if r.Chance(1, 5) {
+		n := r.PickInt(1, 2, 3, 5)
+		if reads && r.Chance(1, 3) {
+			n = r.PickInt(0, -1)
+		}
+		m = "rt" + fmt.Sprint(n) + ":" + m
+		g.Stat("method.retryable")
+	}
+	return m
+}
+
 func randAuth(r *hx.Rand, g *hx.Gen) string {
 	var ms []string
 	n := r.Range(0, 4)
 	for i := 0; i < n; i++ {
-		switch r.Intn(5) {
-		case 0:
-			ms = append(ms, "pw:"+r.PickStr("secret", "x"))
-		case 1:
-			ms = append(ms, "kbd:"+r.PickStr("a", "a", "a", "w", "f"))
-		default:
-			ns := r.PickInt(0, 1, 1, 2, 2, 3, 4)
-			ss := make([]string, ns)
-			for j := range ss {
-				ss[j] = randSigner(r, g)
-			}
-			ms = append(ms, "pk:"+strings.Join(ss, "+"))
-		}
+		ms = append(ms, randMethod(r, g))
 	}
 	if len(ms) == 0 {
 		return "-"
@@ -88,7 +117,31 @@ func randAuth(r *hx.Rand, g *hx.Gen) string {
 	return strings.Join(ms, ";")
 }
 
-var noise = []string{"sa", "x7", "x7:ssh-ed25519", "s", "b", "ok.e", "ok.t", "ok.k", "ok.a:ssh-rsa", "ir:1", "ir:0", "irb", "d", "re",
+// randAcb: a scripted AuthCallback ("" = not set): decisions n (fall through) / f (error) / u=<method>
+func randAcb(r *hx.Rand, g *hx.Gen) string {
+	if !r.Chance(1, 4) {
+		return ""
+	}
+	g.Stat("authcallback")
+	n := r.Range(0, 4)
+	if n == 0 {
+		return "-"
+	}
+	ds := make([]string, n)
+	for i := range ds {
+		switch r.Intn(6) {
+		case 0:
+			ds[i] = "f"
+		case 1, 2:
+			ds[i] = "n"
+		default:
+			ds[i] = "u=" + randMethod(r, g)
+		}
+	}
+	return strings.Join(ds, ";")
+}
+
+var noise = []string{"sa", "x7", "x7:ssh-ed25519", "s", "b", "ok.e", "ok.t", "ok.k", "ok.a:ssh-rsa", "ir:1", "ir:0", "irb", "irs:1", "irx:0", "d", "re",
 	"m:51", "m:60", "m:7", "m:53", "m:6", "o:2", "o:80", "o:90", "f:password,publickey,keyboard-interactive:0", "f:-:0", "f:publickey:1"}
 
 // reactive server: picks the next packet from what the client wrote last. mode 0 = mixed, 1 = always
@@ -134,8 +187,8 @@ func policy(r *hx.Rand, mode int, x *session, step int) string {
 		if r.Chance(2, 5) {
 			return "ir:" + r.PickStr("0", "1", "2", "3")
 		}
-		if r.Chance(1, 12) {
-			return r.PickStr("b", "x7", "irb")
+		if r.Chance(1, 10) {
+			return r.PickStr("b", "x7", "irb", "irs:0", "irs:2", "irx:0", "irx:1")
 		}
 	case "PW", "SG":
 		if r.Chance(1, 12) {
@@ -161,13 +214,14 @@ func genScripted(g *hx.Gen, n int) {
 	r := g.R
 	for i := 0; i < n; i++ {
 		auth := randAuth(r, g)
+		acb := randAcb(r, g)
 		mode := r.PickInt(0, 0, 0, 0, 0, 0, 1, 2)
 		if mode == 1 {
 			g.Stat("mode.always-partial")
 		}
 		var script []string
 		step := 0
-		res, x := runScripted("u", auth, func(x *session) (string, bool) {
+		res, x := runScripted("u", auth, acb, func(x *session) (string, bool) {
 			if len(script) >= 400 {
 				return "", false
 			}
@@ -191,7 +245,11 @@ func genScripted(g *hx.Gen, n int) {
 		if len(script) > 0 {
 			s = strings.Join(script, ";")
 		}
-		g.Emit("cauth user=u auth=%s script=%s", auth, s)
+		if acb != "" {
+			g.Emit("cauth user=u auth=%s acb=%s script=%s", auth, acb, s)
+		} else {
+			g.Emit("cauth user=u auth=%s script=%s", auth, s)
+		}
 	}
 }
 
@@ -245,6 +303,19 @@ func genReal(g *hx.Gen, n int) {
 			chain[j] = r.PickStr("password", "publickey", "keyboard-interactive")
 		}
 		authKey := r.PickInt(1, 3, 4, 5, 6)
+		ca := "none"
+		if r.Chance(1, 2) { // the user key is a certificate issued by a CA of each key type
+			authKey = 100 + r.PickInt(1, 3, 4)
+			ca = r.PickStr("ed", "ec", "rsa")
+			g.Stat("real.cert.ca-" + ca)
+		}
+		keyType := func(id int) string {
+			if id >= 100 {
+				t := sauth.Keys[id-100].Type
+				return t + "-cert-v01@openssh.com"
+			}
+			return sauth.Keys[id].Type
+		}
 		// client methods: mostly everything the chain needs, with good credentials; sometimes a flaw
 		var cli []string
 		need := map[string]bool{}
@@ -273,15 +344,30 @@ func genReal(g *hx.Gen, n int) {
 				var ss []string
 				if r.Chance(1, 2) { // an unauthorized key first
 					other := r.PickInt(1, 3, 4)
-					if other != authKey && !(other == 1 && authKey == 5) && !(other == 4 && authKey == 6) {
+					if other != authKey && other+100 != authKey && !(other == 1 && authKey == 5) && !(other == 4 && authKey == 6) {
 						ss = append(ss, fmt.Sprintf("%d~%s~d", other, sauth.Keys[other].Type))
 					}
 				}
+				good := ""
 				if flaw != 3 {
 					kind := r.PickStr("d", "d", "a", "p")
-					ss = append(ss, fmt.Sprintf("%d~%s~%s", authKey, sauth.Keys[authKey].Type, kind))
+					good = fmt.Sprintf("%d~%s~%s", authKey, keyType(authKey), kind)
+					ss = append(ss, good)
 				}
-				cli = append(cli, "pk:"+strings.Join(ss, "+"))
+				if r.Chance(1, 3) { // PublicKeysCallback whose answer changes between calls
+					bad := ""
+					if len(ss) > 0 && ss[0] != good {
+						bad = ss[0]
+					}
+					first, second := strings.Join(ss, "+"), r.PickStr(good, bad, strings.Join(ss, "+"))
+					if r.Bool() {
+						first, second = second, first
+					}
+					cli = append(cli, "pkcb:"+first+"|"+second)
+					g.Stat("real.pkcb")
+				} else {
+					cli = append(cli, "pk:"+strings.Join(ss, "+"))
+				}
 			}
 		}
 		if flaw == 4 && len(cli) > 1 { // drop a method
@@ -295,7 +381,7 @@ func genReal(g *hx.Gen, n int) {
 		if r.Chance(1, 4) {
 			algs = r.PickStr("ssh-ed25519,rsa-sha2-512", "rsa-sha2-256,rsa-sha2-512,ecdsa-sha2-nistp256", "ssh-rsa,ssh-ed25519,ecdsa-sha2-nistp256", "rsa-sha2-512")
 		}
-		g.Emit("real chain=%s cli=%s auth=%d algs=%s", strings.Join(chain, ","), strings.Join(cli, ";"), authKey, algs)
+		g.Emit("real chain=%s cli=%s auth=%d ca=%s algs=%s", strings.Join(chain, ","), strings.Join(cli, ";"), authKey, ca, algs)
 		g.Stat("real")
 	}
 }
